@@ -164,12 +164,33 @@ func getWorld() *world {
 		panic(err)
 	}
 	setup = append(setup, dtx)
-	// an ONT ID with one key, owned by account 1 (so that ontid methods get past "not registered")
-	if code, err := ledgerkit.NativeCode(nutils.OntIDContractAddress, "regIDWithPublicKey", []interface{}{[]byte(theOntID), pubKeyBytes(1)}); err == nil {
-		if tx, err := ledgerkit.InvokeTx(code, 0, 200000, w.nextNonce(), nil, acct(1)); err == nil {
-			setup = append(setup, tx)
+	// ONT IDs: id(1) with the key of account 1; id(3) with the key of account 3; id(2) under the controller id(1) (no key of its own);
+	// id(1) gets the recovery group {id(3)} with threshold 1
+	ontidTx := func(method string, arg interface{}, signer int) {
+		code, err := ledgerkit.NativeCode(nutils.OntIDContractAddress, method, []interface{}{arg})
+		if err != nil {
+			panic(err)
 		}
+		tx, err := ledgerkit.InvokeTx(code, 0, 200000, w.nextNonce(), nil, acct(signer))
+		if err != nil {
+			panic(err)
+		}
+		setup = append(setup, tx)
 	}
+	type idKey struct {
+		ID []byte
+		PK []byte
+	}
+	type idCtrl struct {
+		ID    []byte
+		Ctrl  []byte
+		Index int
+	}
+	ontidTx("regIDWithPublicKey", idKey{ontID(1), pubKeyBytes(1)}, 1)
+	ontidTx("regIDWithPublicKey", idKey{ontID(3), pubKeyBytes(3)}, 3)
+	ontidTx("regIDWithController", idCtrl{ontID(2), ontID(1), 1}, 1)
+	group := sinkOf(func(s *common.ZeroCopySink) { vu(s, 1); vb(s, ontID(3)); vu(s, 1) })
+	ontidTx("setRecovery", idCtrl{ontID(1), group, 1}, 1)
 	w.mustAdd(setup)
 	if snap != "" {
 		w.kit.Close()
@@ -189,7 +210,6 @@ func getWorld() *world {
 	return w
 }
 
-const theOntID = "did:ont:AXmQDzzvpEtPkNwBEFsREzApTTDZFW6frD"
 
 func (w *world) close() {
 	if w == nil {
